@@ -1559,6 +1559,24 @@ def check(name, cond, safety=False):
         if s1.check() == z3.unsat:
             r = z3.unsat
             backend = 'z3-int'
+    if r == z3.unknown and _no_reals(cz):
+        # index / bookkeeping goals over integers, booleans and uninterpreted functions: retry with the hypotheses that mention no
+        # real number at all (dropping hypotheses is sound for unsat).  The full path condition drags in non-linear real
+        # arithmetic on which z3's running time varies from run to run; the small projected formula is decided reliably.
+        s1 = z3.Solver()
+        s1.set('timeout', min(ctx.vc_timeout_ms, 8000))
+        dropped = 0
+        for p_ in ctx.pc:
+            for c_ in (p_.children() if z3.is_and(p_) else [p_]):
+                if _no_reals(c_):
+                    s1.add(c_)
+                else:
+                    dropped += 1
+        if dropped:
+            s1.add(z3.Not(cz))
+            if s1.check() == z3.unsat:
+                r = z3.unsat
+                backend = 'z3-noreal'
     if r == z3.unknown:
         # polynomial-identity back end, then z3 again on the Ackermannised formula with the full budget
         from . import pit
@@ -1594,6 +1612,18 @@ def check(name, cond, safety=False):
         if r2 == z3.unsat:
             r = z3.unsat
             backend = 'z3-ack-retry'
+        else:
+            # a VC that the first, short z3 call normally discharges in a fraction of a second can miss its 1.5 s slot when the
+            # machine is busy, and the Ackermannised variants are not necessarily easier: ask z3 once more for the ORIGINAL
+            # formula (same input, same seed, deterministic search) with a generous budget
+            s3 = z3.Solver()
+            s3.set('timeout', 3 * ctx.vc_timeout_ms)
+            for p in ctx.pc:
+                s3.add(p)
+            s3.add(z3.Not(cz))
+            if s3.check() == z3.unsat:
+                r = z3.unsat
+                backend = 'z3-retry'
     dt = time.time() - t
     ctx.solver_s += dt
     info = {'t': dt, 'safety': safety, 'path': ''.join('T' if d else 'F' for d in ctx.trail), 'backend': backend}
@@ -1670,6 +1700,26 @@ def entails_cheap(f):
         r = entails(f)      # linear guards are decided by the light solver alone
     ctx._vc_seen[k] = (f, r)
     return r
+
+
+def _no_reals(e, limit=5000):
+    """no Real-sorted subterm (integers, booleans and uninterpreted functions over them)"""
+    seen = set()
+    stack = [e]
+    n = 0
+    while stack:
+        t = stack.pop()
+        if t.get_id() in seen:
+            continue
+        seen.add(t.get_id())
+        n += 1
+        if n > limit:
+            return False
+        if t.sort().kind() == z3.Z3_REAL_SORT:
+            return False
+        if z3.is_app(t):
+            stack.extend(t.children())
+    return True
 
 
 def _pure_int(e, limit=5000):
